@@ -47,14 +47,57 @@ def make_ds():
 
 
 def project(grid):
+    """the registry as the Grid holds it: [[key, [variable names in list order]], ...]. Read from the attribute the
+    property anchors (Grid._metrics); if an implementation keeps it elsewhere the projection is derived from what
+    get_metric answers at every slot instead (occupants only, which is what the property speaks about)."""
     inv = {frozenset(v): k for k, v in KEYS.items()}
-    out = []
-    for key, lst in grid._metrics.items():
-        names = [str(m.name) for m in lst[:16]]
-        if len(lst) > 16:
-            names.append(f"...and {len(lst) - 16} more")       # a registry that grew without bound is reported, not copied
-        out.append([inv[frozenset(key)], names])
-    return sorted(out)
+    reg = getattr(grid, "_metrics", None)
+    if isinstance(reg, dict):
+        out = []
+        for key, lst in reg.items():
+            names = [str(getattr(m, "name", m)) for m in list(lst)[:16]]
+            if len(lst) > 16:
+                names.append(f"...and {len(lst) - 16} more")       # a registry that grew without bound is reported, not copied
+            out.append([inv[frozenset(key)], names])
+        return sorted(out)
+    occupants = {}
+    for key, slot, kind, var in answers(grid):
+        if kind == "exact":
+            occupants.setdefault(key, []).append(var)
+    return sorted([k, sorted(v)] for k, v in occupants.items())
+
+
+def answers(grid):
+    """get_metric at every slot position: [key, slot, kind, variable]"""
+    import warnings
+
+    import numpy as np
+    import xarray as xr
+
+    gm = []
+    vals = {POOL[v][3]: v for v in POOL}
+    for slot, dims in SLOT_DIMS.items():
+        key = slot[:2]
+        arr = xr.DataArray(np.zeros([N + 1 if d == "d5" else N for d in dims]), dims=dims)
+        try:
+            with warnings.catch_warnings(record=True):
+                warnings.simplefilter("always")
+                m = grid.get_metric(arr, KEYS[key])
+            u = np.unique(np.asarray(m.values))
+            if len(u) == 1 and float(u[0]) in vals:
+                var = vals[float(u[0])]
+                kind = "exact" if set(m.dims) == set(POOL[var][2]) else "interp"
+                gm.append([key, slot, kind, var])
+            else:
+                gm.append([key, slot, "product", "none"])
+        except KeyError:
+            gm.append([key, slot, "none", "none"])
+        except NotImplementedError:
+            # the only registered variables sit at a position from which no shift to this one is defined (left -> outer)
+            gm.append([key, slot, "undefined-shift", "none"])
+        except Exception as ex:
+            gm.append([key, slot, "error:" + type(ex).__name__, "none"])
+    return gm
 
 
 def run_history(history, last_via_ctor_first=False):
@@ -89,30 +132,7 @@ def run_history(history, last_via_ctor_first=False):
             grid = xgcm.Grid(ds, coords=coords, periodic=False, autoparse_metadata=False)
         rec = {"call": {"k": call["k"], "vs": list(call["vs"]), "ow": bool(call["ow"]), "ctor": bool(call.get("ctor"))},
                "pre": pre, "post": project(grid), "out": out}
-    # get_metric at every slot position
-    gm = []
-    vals = {POOL[v][3]: v for v in POOL}
-    for slot, dims in SLOT_DIMS.items():
-        key = slot[:2]
-        arr = xr.DataArray(np.zeros([N + 1 if d == "d5" else N for d in dims]), dims=dims)
-        try:
-            with warnings.catch_warnings(record=True) as w:
-                warnings.simplefilter("always")
-                m = grid.get_metric(arr, KEYS[key])
-            u = np.unique(np.asarray(m.values))
-            if len(u) == 1 and float(u[0]) in vals:
-                var = vals[float(u[0])]
-                kind = "exact" if set(m.dims) == set(POOL[var][2]) else "interp"
-                gm.append([key, slot, kind, var])
-            else:
-                gm.append([key, slot, "product", "none"])
-        except KeyError:
-            gm.append([key, slot, "none", "none"])
-        except NotImplementedError:
-            # the only registered variables sit at a position from which no shift to this one is defined (left -> outer)
-            gm.append([key, slot, "undefined-shift", "none"])
-        except Exception as ex:
-            gm.append([key, slot, "error:" + type(ex).__name__, "none"])
+    gm = answers(grid)
     rec["gm"] = gm
     return rec
 
@@ -165,7 +185,7 @@ def run(ctx):
     depth = 4 if thorough else 3
     if thorough:
         apalache_inductive(ctx)
-    ctx.mc("MC_Metrics", "MC_Metrics_thorough.cfg" if thorough else "MC_Metrics.cfg", coverage=True)
+    ctx.mc("MC_Metrics", "MC_Metrics_thorough.cfg" if thorough else "MC_Metrics.cfg", coverage=thorough)
     allcalls = calls()
     pool_list = [[v, POOL[v][0], POOL[v][1]] for v in sorted(POOL)]
     # breadth-first over the implementation's registry states
@@ -200,7 +220,7 @@ def run(ctx):
                 seen[sk] = hist + [c]
                 new[sk] = hist + [c]
         frontier = new
-        cap = 1500 if thorough else (15 if d == depth - 2 else 40)
+        cap = 1500 if thorough else (10 if d == depth - 2 else 30)
         if len(frontier) > cap:
             # the next level is explored from a sample of the new states (always the case for the last quick level;
             # otherwise only when an implementation makes the registry grow without bound)
